@@ -156,7 +156,7 @@ def parseNodes : Nat → List String → List (Node DPat) → Option (List (Node
       | rt :: rest2 =>
         match parseRoute rt with
         | some r =>
-          parseNodes f rest2 (.resource (resourcePat (t.drop 2).toString) r.guards none [⟨[], r.handler⟩] none :: acc)
+          parseNodes f rest2 (routeSugar (resourcePat (t.drop 2).toString) r :: acc)
         | none => none
       | [] => none
     else none
